@@ -28,7 +28,11 @@ def post_case(draw, heavy=False):
     handler[str(draw(st.integers(0, max(0, total - 1))))] = draw(kinds_st)
     total += 1
   case = {"posters": posters, "body": body, "prefill": prefill, "handler": handler,
-          "schedule": [list(x) for x in draw(schedule_st)], "heavy": 0}
+          "schedule": [list(x) for x in draw(schedule_st)], "heavy": 0,
+          # events that arrive through the fabric and from a timed source
+          "subscribe": draw(st.sampled_from(["none", "none", "fifo", "lifo", "both"])),
+          "publishes": draw(st.integers(0, 3)),
+          "timer": draw(st.sampled_from([None, None, ["fifo", 2], ["lifo", 1], ["fifo", 3]]))}
   if heavy:
     case["heavy"] = draw(st.sampled_from([0, 0, 1, 497, 498, 499, 500]))
   return case
@@ -42,7 +46,8 @@ def run_post_case(case, step_limit=400000):
   from miros.event import Event, signals
   files = detsched.miros_files()
   rec = aocheck.Rec()
-  out = {"rec": rec, "failure": None, "posted": [], "final_len": None, "ao_state": None,
+  out = {"rec": rec, "failure": None, "posted": [], "published": [], "timer_expected": 0,
+         "final_len": None, "ao_state": None,
          "switch_inside_post": 0, "posters_done": None}
   signals.append("VA")
   VA = signals["VA"]
@@ -76,7 +81,24 @@ def run_post_case(case, step_limit=400000):
       nid = 10 + j
       out["posted"].append(nid)
       getattr(chart, "post_" + kind)(Event(signal=VA, payload=nid))
+    sub = case.get("subscribe", "none")
+    signals.append("VB")
+    if sub in ("fifo", "both"):
+      chart.subscribe(Event(signal=signals["VB"]), queue_type="fifo")
+    if sub in ("lifo", "both"):
+      chart.subscribe(Event(signal=signals["VB"]), queue_type="lifo")
     chart.start_at(st_fn)
+    if sub != "none":
+      s.quiesce()          # the subscriptions are in effect before anything is published
+    tm = case.get("timer")
+    if tm:
+      signals.append("VC")
+      chart_post = getattr(chart, "post_" + tm[0])
+      chart_post(Event(signal=signals["VC"], payload=7000), period=0.5, times=tm[1], deferred=False)
+      out["timer_expected"] = tm[1]
+    for j in range(case.get("publishes", 0)):
+      out["published"].append(3000 + j)
+      chart.publish(Event(signal=signals["VB"], payload=3000 + j))
 
     def poster(k, kinds):
       for j, kind in enumerate(kinds):
@@ -94,6 +116,8 @@ def run_post_case(case, step_limit=400000):
     for t in threads:
       t.join()
     s.quiesce()
+    if tm:
+      s.sleep_until(s.now + 0.5 * tm[1] + 1.0)     # let the timed source finish
     out["posters_done"] = all(not t.is_alive() for t in threads)
     out["final_len"] = len(chart.queue)
     out["tokens"] = chart.queue.qsize() if hasattr(chart.queue, "qsize") else None
@@ -123,11 +147,15 @@ class C04(Prop):
           "operation; schedule = generated list of (thread pick, run length 1..200) followed by "
           "fair round-robin): a started ActiveObject, 1-3 poster threads with generated fifo/lifo "
           "post lists, posts from the body thread, posts made before start_at and posts made by "
-          "handlers, <= 12 posts in all (far below capacity), every event with a unique id. Oracle "
-          "after quiescence: (1) the multiset of dispatched ids equals the posted ids; (2) "
+          "handlers, optionally 0-3 publications of a signal the object subscribed to (fifo, lifo or "
+          "both) and a timed source with 1-3 shots, <= 12 direct posts in all (far below capacity), every event with a unique id. Oracle "
+          "after quiescence: (1) the multiset of dispatched ids equals the posted ids, every publication "
+          "is dispatched once per subscription kind (in publish order for a fifo subscription) and "
+          "the timed source exactly its number of shots; (2) "
           "linearizability: an exhaustive search finds a total order of post and pop operations "
           "that respects every operation's [invoke, return] step interval and under which a deque "
-          "(fifo=append, lifo=appendleft) yields the observed dispatch order; (3) the queue is "
+          "(fifo=append, lifo=appendleft) yields the observed dispatch order (runs with direct "
+          "posts only); (3) the queue is "
           "empty, every poster finished, the consumer is blocked waiting for a token (no lost "
           "wake-up) with tokens == pending; (4) run-to-completion steps never overlap and all run "
           "on one thread. Non-trivial: >=2 posting threads, >=1 lifo post and >=1 context switch "
@@ -159,7 +187,21 @@ class C04(Prop):
     if s.thread_errors:
       name, e, tb = s.thread_errors[0]
       raise PropertyViolation("thread %s died: %s: %s" % (name, type(e).__name__, e), "C04:thread-error")
-    got = [d["id"] for d in rec.dispatch]
+    # events that came through the fabric or from the timed source are checked on their own
+    via_fabric = [d["id"] for d in rec.dispatch if d["sig"] == "VB"]
+    via_timer = [d["id"] for d in rec.dispatch if d["sig"] == "VC"]
+    kinds_n = {"none": 0, "fifo": 1, "lifo": 1, "both": 2}[case.get("subscribe", "none")]
+    want_fabric = sorted(out["published"] * kinds_n)
+    if sorted(via_fabric) != want_fabric:
+      raise PropertyViolation("published %s with a %s subscription, dispatched %s" % (
+        out["published"], case.get("subscribe"), via_fabric), "C04:fabric-delivery")
+    if case.get("subscribe") == "fifo" and via_fabric != sorted(via_fabric):
+      raise PropertyViolation("fifo-subscribed publications were dispatched out of publish order: %s" % (
+        via_fabric,), "C04:fabric-order")
+    if len(via_timer) != out["timer_expected"]:
+      raise PropertyViolation("a timed source with %d shots was dispatched %d time(s)" % (
+        out["timer_expected"], len(via_timer)), "C04:timer-delivery")
+    got = [d["id"] for d in rec.dispatch if d["sig"] == "VA"]
     if sorted(got) != sorted(out["posted"]):
       lost = sorted(set(out["posted"]) - set(got))
       dup = sorted(i for i in set(got) if got.count(i) > 1)
@@ -186,11 +228,12 @@ class C04(Prop):
     # (2) linearizability
     enters = [r for r in rec.rtc if r[0] == "enter"]
     pops = []
-    for d in rec.dispatch:
+    extra = bool(via_fabric or via_timer)
+    for d in [d for d in rec.dispatch if d["sig"] == "VA"]:
       inv = max([r[1] for r in enters if r[1] <= d["step"]] or [0])
       pops.append({"id": d["id"], "inv": inv, "ret": d["step"]})
-    posts = [p for p in rec.posts]
-    if len(posts) <= 14:
+    posts = [p for p in rec.posts if p["sig"] == "VA"]
+    if len(posts) <= 14 and not extra:
       ok, explored = aocheck.linearizable(posts, pops)
       if not ok:
         raise PropertyViolation(
